@@ -173,6 +173,23 @@ impl Property for C15 {
                     return Err(format!("[{}] nth({}) then the rest give {:?} + {:?}, batch {}\n stream {:?}", c.lang, k, nth, rest, show(&batch), texts()));
                 }
             }
+            // paging beyond the end yields nothing
+            for extra in [0usize, 1, 3] {
+                let n = batch.len() + extra;
+                if let Some(o) = find_numbers_iter(stream.iter(), lg, th).nth(n) {
+                    return Err(format!("[{}] nth({}) on {} occurrences returned {:?}\n stream {:?}", c.lang, n, batch.len(), o.text, texts()));
+                }
+                let rest: Vec<String> = find_numbers_iter(stream.iter(), lg, th).skip(n).map(|o| o.text).collect();
+                if !rest.is_empty() {
+                    return Err(format!("[{}] skip({}) on {} occurrences left {:?}\n stream {:?}", c.lang, n, batch.len(), rest, texts()));
+                }
+            }
+            if batch.len() >= 2 {
+                let got: Vec<String> = find_numbers_iter(stream.iter(), lg, th).skip(batch.len() - 1).map(|o| o.text).collect();
+                if got != vec![batch[batch.len() - 1].text.clone()] {
+                    return Err(format!("[{}] skip({}) should leave the last occurrence, got {:?}\n stream {:?}", c.lang, batch.len() - 1, got, texts()));
+                }
+            }
             obs.label("iterator-protocol-checked");
         }
         if lazy != batch {
